@@ -130,3 +130,21 @@ Proof.
       vm_compute; reflexivity. }
     split; [reflexivity|]. split; [reflexivity|]. vm_compute. reflexivity.
 Qed.
+
+(* ---- tie C3: decode TRANSLATED from wsutil/utf8.go on this run (gen/Translated3.v): table lookups into
+   the package array utf8d are CHECKED index expressions.  For every DFA state (multiples of 12 up to 96),
+   every codep and every byte: no index-out-of-range panic, the new state is the model's u8_decode — so, by
+   C07_dfa_is_table_3_7, the Unicode definition — and is again a DFA state (hence panic-free for ever);
+   memory is not touched. *)
+Require GoSlices GoMem Translated3 Translated3Ok.
+Theorem C07_source_decode : forall st cp b w, In st Translated3Ok.u8_states -> (0 <= b < 256)%Z ->
+  exists cp', Translated3.g3_wsutil_decode st cp b w
+              = GoSlices.Ok ((cp', Z.of_N (u8_decode (Z.to_N st) (Z.to_N b))), w)
+              /\ In (Z.of_N (u8_decode (Z.to_N st) (Z.to_N b))) Translated3Ok.u8_states.
+Proof. exact Translated3Ok.g3_wsutil_decode_ok. Qed.
+Print Assumptions C07_source_decode.
+
+Example C07_source_decode_nonvacuous :
+  Translated3.g3_wsutil_decode 0%Z 0%Z 226%Z (GoMem.mk_world [] []) = GoSlices.Ok ((2%Z, 36%Z), GoMem.mk_world [] [])
+  /\ u8_decode 0 226 = 36.
+Proof. vm_compute. split; reflexivity. Qed.
